@@ -75,6 +75,52 @@ def _strip_docstrings(tree: ast.AST) -> None:
 _NEG_OPS = {ast.NotEq: ast.Eq, ast.IsNot: ast.Is, ast.NotIn: ast.In}
 
 
+_TERMINAL = (ast.Return, ast.Raise, ast.Continue, ast.Break)
+_INV_OPS = {ast.Eq: ast.NotEq, ast.NotEq: ast.Eq, ast.Is: ast.IsNot, ast.IsNot: ast.Is, ast.In: ast.NotIn, ast.NotIn: ast.In}
+
+
+def _negated(test: ast.expr) -> ast.expr:
+    if isinstance(test, ast.UnaryOp) and isinstance(test.op, ast.Not):
+        return test.operand
+    if isinstance(test, ast.Compare) and len(test.ops) == 1 and type(test.ops[0]) in _INV_OPS:
+        return ast.copy_location(ast.Compare(left=test.left, ops=[_INV_OPS[type(test.ops[0])]()], comparators=test.comparators), test)
+    return ast.copy_location(ast.UnaryOp(op=ast.Not(), operand=test), test)
+
+
+def _flatten_terminal_arms(tree: ast.AST) -> None:
+    """`if t: ...; return a` + `else: R` is the same program as `if t: ...; return a` followed by R. A two-armed conditional with
+    an arm that leaves the block (return / raise / continue / break) is put into ONE form once after parsing: the leaving arm is
+    the body (the test is negated when only the else arm leaves; with two leaving arms the written order is kept, which is the
+    form `if t: ...; return a` + rest comes from), the other arm follows the conditional in the enclosing block. No rule can then depend on whether the author writes else after return
+    (measured with tools/benign_copy.py elseafterreturn; together with _canonical_polarity also invertif)."""
+    def fold(stmts: list) -> list:
+        out: list = []
+        for st in stmts:
+            for field in ("body", "orelse", "finalbody"):
+                v = getattr(st, field, None)
+                if isinstance(v, list) and v and isinstance(v[0], ast.stmt):
+                    setattr(st, field, fold(v))
+            for h in getattr(st, "handlers", []) or []:
+                h.body = fold(h.body)
+            for c in getattr(st, "cases", []) or []:
+                c.body = fold(c.body)
+            if isinstance(st, ast.If) and st.orelse:
+                bt, et = isinstance(st.body[-1], _TERMINAL), isinstance(st.orelse[-1], _TERMINAL)
+                if not bt and et:
+                    st.test, st.body, st.orelse = _negated(st.test), st.orelse, st.body
+                    bt = True
+                if bt:
+                    rest, st.orelse = st.orelse, []
+                    out.append(st)
+                    out.extend(rest)
+                    continue
+            out.append(st)
+        return out
+    for node in ast.walk(tree):
+        if isinstance(node, (ast.FunctionDef, ast.AsyncFunctionDef)):
+            node.body = fold(node.body)
+
+
 def _canonical_polarity(tree: ast.AST) -> None:
     """`if not c: A else: B` is the same program as `if c: B else: A` (likewise `a != b`, `is not`, `not in`, and conditional
     expressions). A two-armed conditional whose test is negated is turned into its positive form once after parsing, so that no
@@ -164,6 +210,7 @@ class ModuleInfo:
         try:
             self.tree = ast.parse(self.source, filename=str(path))
             _strip_docstrings(self.tree)
+            _flatten_terminal_arms(self.tree)
             _inline_return_temporaries(self.tree)
             _canonical_polarity(self.tree)
         except SyntaxError as e:  # pragma: no cover
